@@ -85,7 +85,7 @@ def judge(ck, ex, res):
 
 def run(tier, lab):
     ck = lib.Check(PROP, tier, "model_checking")
-    nex = 120 if tier == "quick" else 1500
+    nex = 120 if tier == "quick" else 6000
     r = lib.tlc("MC_Proxy", timeout=600, constants={"Devs": "{}", "NEx": str(nex)}, tlc_seed=lib.seed(), workers=8)
     lib.tlc_must_pass(r, "Proxy (BackendSawExactlyClientSent, ClientSawExactlyBackendSent, OnlyBackendDialled) on the drawn exchanges")
     ck.add_tlc(r, "Proxy: all interleavings of send/forward/reply/back for %d drawn exchanges" % nex)
